@@ -206,7 +206,7 @@ func c11CheckBatch(run *vlib.Run, cases []schemaCase) (map[int][]vlib.Violation,
 			if nulls != "" {
 				where = "doc-has-null:" + nulls
 			}
-			add(fmt.Sprintf("python-raises:%s:%s:%s", f, pyErrClass(pr.Error), where), "from_json/to_json raises %s", pr.Error)
+			add(fmt.Sprintf("python-raises:%s:%s:%s%s", f, pyErrClass(pr.Error), where, nestedTag(c)), "from_json/to_json raises %s", pr.Error)
 			continue
 		}
 		diffs, cerr := smodel.CompareRoundTrip(c.Model, d.Def, d.JSON, pr.Encoded)
